@@ -7,7 +7,7 @@ import tlc
 from common import Machinery, Verdict, seed
 from pool import run_chunks
 
-TIERS = {"quick": dict(MaxOps=2, EmitMod=4, backends=[("numpy", ("scipy",))], limits=False),
+TIERS = {"quick": dict(MaxOps=2, EmitMod=4, backends=[("numpy", ("scipy",)), ("pytorch", ("scipy",)), ("jax", ("scipy",)), ("tensorflow", ("scipy",))], limits=False),
          "thorough": dict(MaxOps=3, EmitMod=12, backends=[("numpy", ("scipy", "minuit")), ("pytorch", ("scipy",)), ("jax", ("scipy",))], limits=True)}
 
 
@@ -25,7 +25,7 @@ def run(prop, tier):
     total = nontriv = compared = discarded = 0
     maxdev = {}
     for bi, (be, opts) in enumerate(t["backends"]):
-        use = lines if bi == 0 else lines[: max(8, len(lines) // 6)]
+        use = lines if bi == 0 else (lines[8 * (bi - 1): 8 * bi] if tier == "quick" else lines[: max(8, len(lines) // 6)])
         chunks = [use[i::16] for i in range(16)]
         for out in run_chunks("rewrites_replay", "replay", [c for c in chunks if c], backend=be, precision="64b", procs=16,
                               kwargs={"seed": sd, "optimizers": list(opts), "with_limits": t["limits"] and bi == 0}):
